@@ -21,6 +21,7 @@ type OblResult struct {
 	Model   string
 	Output  string
 	Tried   []string
+	Relaxed bool
 }
 
 type UnitResult struct {
@@ -67,7 +68,7 @@ func (w *World) verifyFunction(pi *PkgInfo, fn *ssa.Function, c *Contract) (res 
 	if res.unit != nil && res.unit.usedStructAppend && len(res.SpecErrs) == 0 {
 		// second pass: struct appends copy only the families the first pass touched anywhere
 		rel := map[string]bool{}
-		for f := range res.unit.famSort {
+		for f := range res.unit.touched {
 			rel[f] = true
 		}
 		delete(w.usedContracts, res.unit)
@@ -172,6 +173,7 @@ func (w *World) verifyFunctionPass(pi *PkgInfo, fn *ssa.Function, c *Contract, r
 			}
 			merged, vals = nm, nv
 		}
+		u.retVals = vals
 		env := u.specEnv(fr, merged)
 		bindResults(env.vars, fn, vals)
 		for i, en := range c.Ensures {
